@@ -115,6 +115,47 @@ theorem C55_witness_trunc : ¬ ParamsRoundTrip := by
 theorem C55_witness_panic : encodeRequest [(big, [])] [] = none := by
   simp [encodeRequest, requestRecords, writePairsLoop, panics, maxWrite, big_length]
 
+/-! ### the CGI environment built by Transport.RoundTrip (`envLog` replays buildMetaValsAndMethod's Add/Set calls) -/
+
+/-- **C55_env_protected**: no request header — whatever its name, case, `-`/`_` spelling or number — changes the value
+    of any variable whose name does not start with `HTTP_`, except CONTENT_TYPE (which is the request's own
+    Content-Type by definition): REMOTE_ADDR, SCRIPT_FILENAME, DOCUMENT_ROOT, REQUEST_METHOD, QUERY_STRING,
+    CONTENT_LENGTH, SERVER_*, the operator's EnvVars … are the same for every header map. -/
+theorem C55_env_protected (i : RtIn) (hdrs' : List (Bytes × List Bytes)) (k : Bytes)
+    (hk : isHttpKey k = false) (hct : k ≠ kCONTENT_TYPE) :
+    lookup k (envLog i) = lookup k (envLog { i with hdrs := hdrs' }) := by
+  have hno : ∀ j : RtIn, ∀ o ∈ hdrOps j, o.key ≠ k := by
+    intro j o ho heq
+    have := hdrOps_http j o ho
+    rw [heq, hk] at this
+    exact absurd this (by decide)
+  by_cases hcl : k = kCONTENT_LENGTH
+  · subst hcl
+    have : ∀ j : RtIn, j.contentLength = i.contentLength →
+        lookup kCONTENT_LENGTH (envLog j) = some [fmtInt i.contentLength] := by
+      intro j hj
+      unfold envLog
+      rw [lookup_append]
+      have a1 : ¬ kREQUEST_METHOD = kCONTENT_LENGTH := by decide
+      have a2 : ¬ kCONTENT_TYPE = kCONTENT_LENGTH := by decide
+      simp only [finalOps, List.foldl_cons, List.foldl_nil, step, a1, a2, if_false, if_true, hj]
+    rw [this i rfl, this { i with hdrs := hdrs' } rfl]
+  · exact env_core i hdrs' k hcl hct (hno i) (hno _)
+
+/-- **C55_env_no_httpoxy**: HTTP_PROXY is exactly what the operator configured (or absent): a request header `Proxy`
+    (any case) never creates or changes it, and no other header name maps to it. -/
+theorem C55_env_no_httpoxy (i : RtIn) :
+    lookup kHTTP_PROXY (envLog i) = lookup kHTTP_PROXY (envLog { i with hdrs := [] }) :=
+  env_core i [] kHTTP_PROXY (by decide) (by decide) (hdrOps_not_proxy i) (hdrOps_not_proxy _)
+
+/-- the request writer of the model is the statement-by-statement bufio model: `writePairsBW` (Write / WriteString /
+    Flush on a 65500-byte bfe_bufio.Writer whose sink calls become records) produces exactly the records of
+    `writePairsLoop`, and one `Write(body)` + Close exactly `streamWrite body ++ [[]]`. -/
+theorem C55_bufio_refines (pairs : List (Bytes × Bytes)) (body : Bytes) :
+    (writePairsBW pairs 0 ⟨[], []⟩).map BW.records = writePairsLoop pairs 0 [] [] ∧
+    (bodyBW body).records = streamWrite body ++ [[]] :=
+  ⟨by simpa using writePairsBW_eq pairs 0 ⟨[], []⟩ rfl (by simp [maxWrite]), bodyBW_records body⟩
+
 /-! ### response side -/
 
 /-- full-strength statement — FALSE for the code as it is: for every well-formed responder record sequence that
